@@ -223,6 +223,32 @@ def expand_helpers(model: Model, cls: ClassInfo, func: ast.FunctionDef, depth: i
     return f2
 
 
+def visits_each_in_order(model: Model, cls: ClassInfo, func: ast.FunctionDef, source_texts) -> bool:
+    """Does `func` (helpers expanded) visit every element of one of `source_texts`
+    (e.g. 'expr', 'expr.GetArguments()') in order, unfiltered - as a
+    comprehension or as a loop that appends?"""
+    f = expand_helpers(model, cls, func)
+    for it, tgt, body, kind in iterations(f):
+        if " ".join(unparse(it).split()) not in source_texts:
+            continue
+        if kind == "comp":
+            # find the comprehension node to make sure there is no filter
+            ok = True
+            for n in ast.walk(f):
+                if isinstance(n, (ast.ListComp, ast.GeneratorExp)) and n.generators[0].iter is it and n.generators[0].ifs:
+                    ok = False
+            if ok and any(isinstance(c, ast.Call) and last_attr(c) in ("v_Visit", "v_Generic") and c.args and unparse(c.args[0]) == unparse(tgt) for b in body for c in ast.walk(b)):
+                return True
+        else:
+            stmts = [s for s in body]
+            guarded = any(isinstance(s, (ast.If, ast.Continue, ast.Break)) for s in stmts)
+            visits = any(isinstance(c, ast.Call) and last_attr(c) in ("v_Visit", "v_Generic") and c.args and unparse(c.args[0]) == unparse(tgt) for s in stmts for c in ast.walk(s))
+            appends = any(isinstance(c, ast.Call) and last_attr(c) == "append" for s in stmts for c in ast.walk(s))
+            if visits and appends and not guarded:
+                return True
+    return False
+
+
 def iterations(node) -> List[tuple]:
     """[(iter expression, target, body-or-element, kind)] for every for-loop and
     comprehension generator inside node."""
